@@ -46,7 +46,7 @@ def probe_dotenv() -> dict:
     return {"import": "probe-failed", "stderr": r.stderr[-400:]}
 
 
-def probe(cfg) -> dict:
+def probe(cfg, pyflags: tuple = ()) -> dict:
     dis, dbg, lvl = cfg
     env = {k: v for k, v in os.environ.items() if not k.upper().startswith("DLTYPE_")}
     if dis is not None:
@@ -56,7 +56,8 @@ def probe(cfg) -> dict:
             env["DLTYPE_DISABLE"] = dis
     if dbg is not None:
         env["DLTYPE_DEBUG_MODE"] = dbg
-    r = subprocess.run([PY, "-m", "harness.probe_env", lvl], capture_output=True, text=True, cwd=str(VERIF), env=env, timeout=300)
+    env.pop("PYTHONOPTIMIZE", None)
+    r = subprocess.run([PY, *pyflags, "-m", "harness.probe_env", lvl], capture_output=True, text=True, cwd=str(VERIF), env=env, timeout=300)
     for line in r.stdout.splitlines():
         if line.startswith("PROBE "):
             return json.loads(line[6:])
@@ -120,6 +121,10 @@ def run(tier: str, seed: int, rep: Report, model: Model) -> dict:
                                             "disabled, yet decorating with a scope provider did not simply return the function (or a check ran)"), **rr})
                 elif not en and got.get("provider_consulted"):
                     rep.violation({"what": "disabled, yet the scope provider was consulted", **rr})
+            want_ne = base.get("fn_named_expr") if en else ["accept"] * len(base.get("fn_named_expr", []))
+            if r.get("fn_named_expr") != want_ne:
+                rep.violation({"what": "verdicts / reports of calls whose named expression establishes a name differ from the reference run" if en else
+                               "a check was performed although disabled", "expected": want_ne, "observed": r.get("fn_named_expr"), "enabled_arg": label, **rec})
             # the function with an optional None and a tuple parameter: same reports as the reference run
             want_opt = base.get("fn_opt") if en else ["accept"] * len(base.get("fn_opt", []))
             rep.count(f"enabled_{en}:fn_opt:{'same' if r.get('fn_opt') == want_opt else 'differs'}")
@@ -135,6 +140,19 @@ def run(tier: str, seed: int, rep: Report, model: Model) -> dict:
                 want = base[kind] if en else ["accept"] * len(base[kind])
                 if r[kind] != want:
                     rep.violation({"what": "verdicts / reports differ from the reference corpus outcome" if en else "a check was performed although disabled", "expected": want, **rr})
+    # interpreter flags are not the switch either: python -O / -OO (asserts stripped, __debug__ false) decide nothing
+    for flags in (("-O",), ("-OO",)):
+        po = probe((None, None, "WARNING"), pyflags=flags)
+        rep.case("python " + " ".join(flags), {"import": po.get("import")})
+        rep.count("optimized_interpreter:" + str(po.get("import")))
+        if po.get("import") != "ok":
+            rep.violation({"what": "importing dltype failed under " + " ".join(flags), "result": po})
+            continue
+        for label in ("default", "True", "False"):
+            if po[label] != ref[label]:
+                diff = {k: {"optimized": po[label].get(k), "reference": ref[label].get(k)} for k in ref[label] if po[label].get(k) != ref[label].get(k)}
+                rep.violation({"what": "running under python " + " ".join(flags) + " changed what the decorators do or decide", "enabled_arg": label, "differences": diff})
+                break
     # a .env file in the working directory is not the environment
     de = probe_dotenv()
     rep.case("dotenv_file_in_cwd", {"import": de.get("import")})
